@@ -39,11 +39,12 @@ func tOf(v any) reflect.Type { return reflect.TypeOf(v) }
 var both = []string{codecBin, codecJSON}
 
 // Where each kind is encoded in the tree:
-//   Block: part sets (consensus), block store, bcBlockResponse; Header via BlockMeta; Commit: block
-//   store (C:/SC: keys); Part: block store + BlockPartMessage; Vote/Proposal: reactor messages, WAL
-//   (JSON), priv validator; ValidatorSet/GenesisDoc: inside sm.State (binary) and genesis.json (JSON);
-//   State: state DB; ConsensusMessage: p2p (binary) and WAL msgInfo (JSON); TimedWALMessage: WAL lines
-//   (JSON only); Blockchain/Mempool/Pex messages, NodeInfo: p2p (binary); PrivValidator: JSON file.
+//
+//	Block: part sets (consensus), block store, bcBlockResponse; Header via BlockMeta; Commit: block
+//	store (C:/SC: keys); Part: block store + BlockPartMessage; Vote/Proposal: reactor messages, WAL
+//	(JSON), priv validator; ValidatorSet/GenesisDoc: inside sm.State (binary) and genesis.json (JSON);
+//	State: state DB; ConsensusMessage: p2p (binary) and WAL msgInfo (JSON); TimedWALMessage: WAL lines
+//	(JSON only); Blockchain/Mempool/Pex messages, NodeInfo: p2p (binary); PrivValidator: JSON file.
 var kinds = []kindSpec{
 	{name: "Vote", typ: tOf(types.Vote{}), codecs: both, weight: 3},
 	{name: "Proposal", typ: tOf(types.Proposal{}), codecs: both, weight: 3},
